@@ -1,7 +1,7 @@
 """Random SsbScript statement ASTs (format: harness/astdump_ssbs.py) and a printer to SsbScript text.
-Shapes the SsbScript decompiler never prints but the compiler accepts: routine ids out of order / with gaps /
-repeated / negative, `coro` after `def`, unknown `for` words, legacy `for_actor (N)` syntax, labels at the end of a
-routine or file, several labels before one op, repeated label names, jump markers that are not the last argument,
+Shapes the SsbScript decompiler never prints: routine ids out of order / repeated (accepted), with gaps at the start or
+later / negative / huge (SsbCompilerError since the `fix:` commit on `_enlarge_routine_info`), `coro` after `def`,
+unknown `for` words, legacy `for_actor (N)` syntax, labels at the end of a routine or file, several labels before one op, repeated label names, jump markers that are not the last argument,
 jumps to labels that are never defined."""
 from __future__ import annotations
 
@@ -29,7 +29,8 @@ def gen_args(r: random.Random, pool: list[str]) -> list:
 
 def gen_ast(r: random.Random) -> list:
     n = r.choice([0, 1, 1, 2, 2, 3, 4])
-    mode = r.choice(["seq", "seq", "random", "random", "gap", "neg"])
+    mode = r.choice(["seq", "seq", "repeat", "repeat", "random", "gap", "neg", "lategap"])
+    bad_at = r.randint(1, max(1, n - 1))  # lategap: the routine whose id skips / is negative / is huge
     out = []
     # jump markers mostly name labels that will be defined somewhere in the file (before or after the jump)
     defined = r.sample(LABELS, r.randint(1, 4))
@@ -42,6 +43,10 @@ def gen_ast(r: random.Random) -> list:
             rid = r.randint(0, 4)
         elif mode == "gap":
             rid = i * 2 + 1
+        elif mode == "lategap":
+            rid = i if i != bad_at else r.choice([i + 1, i + 1, i + 2, -1, 1000, 99999999999])
+        elif mode == "repeat":
+            rid = r.randint(0, i)  # mostly valid: an earlier id again, or the next one
         else:
             rid = r.choice([-1, -1, 0, 1, -2])
         if c < 0.2:
